@@ -1,4 +1,5 @@
 import VtlModel.Sem.JoinLemmas
+import VtlModel.Sem.JoinImpl
 import VtlModel.Props.C33
 /-! # C04 — joins combine datasets as specified
 
@@ -384,6 +385,25 @@ theorem joinE_ExtPerm (kind : JoinKind) (us : Option (List String)) (body : DExp
     ExtPerm (joinE kind us body a1 e1 a2 e2) :=
   ⟨h1, h2, join_perm kind us body a1 a2 hb hp⟩
 
+/-! ## the engine's n-ary full join is NOT the specified one (counter-example, replayed on the real code) -/
+
+def wx : DS := DS.mk ["Id_1"] ["Me_1"] [[("Id_1", .int 1), ("Me_1", .int 10)]]
+def wy : DS := DS.mk ["Id_1"] ["Me_3"] [[("Id_1", .int 1), ("Me_3", .str "x")], [("Id_1", .int 3), ("Me_3", .str "y")]]
+def wz : DS := DS.mk ["Id_1"] ["Me_5"] [[("Id_1", .int 3), ("Me_5", .int 5)], [("Id_1", .int 4), ("Me_5", .int 6)]]
+
+instance (d : DS) : Decidable d.WF := by unfold DS.WF; exact inferInstance
+
+/-- `full_join(x, y, z)` as `visit_JoinOp` transpiles it (`implFull3`: the third operand is matched on the
+FIRST operand's key only) returns the identifier `Id_1 = 3` twice on this input — the result is not a
+dataset — whereas the specified join returns three datapoints with unique identifiers, the datapoints of
+`y` and `z` for `Id_1 = 3` combined.  The check replays exactly this witness through `run()`
+(corpus case `full3-key-only-in-2nd-and-3rd`; known finding). -/
+theorem full3_impl_counter :
+    ¬ (implFull3 ["Id_1"] wx wy wz).WF ∧ (implFull3 ["Id_1"] wx wy wz).keys = [[.int 1], [.int 3], [.int 3], [.int 4]] ∧
+    (joinFold .full none wx [wy, wz]).map (fun r => (decide r.WF, r.rows.map (fun w => (w.get "Id_1", w.get "Me_3", w.get "Me_5")))) =
+      .ok (true, [(.int 1, .str "x", .null), (.int 3, .str "y", .int 5), (.int 4, .null, .int 6)]) := by
+  decide +kernel
+
 /-! ## non-vacuity: the Reference-Manual data (RM006–RM009), abridged -/
 
 def rowA (i : Int) (j m1 m2 : String) : Row := [("Id_1", .int i), ("Id_2", .str j), ("Me_1", .str m1), ("Me_2", .str m2)]
@@ -410,5 +430,15 @@ example : p1.WF ∧ p2.WF := by unfold DS.WF; decide
 example : join2 .inner ["Id_1", "Id_2"] ds1 ds2 = .error .type := by decide +kernel
 example : joinN .full (some ["Id_1"]) [("d1", ds1), ("d2", ds2)] = .error .type := by decide +kernel
 example : join2 .left ["Id_1"] p1 p2 = .error .type := by decide +kernel
+
+-- cross join of operands without common names; the whole pipeline on the Reference-Manual data (RM008: full join + keep)
+def q2 : DS := DS.mk ["Id_3"] ["Me_7"] [[("Id_3", .int 7), ("Me_7", .int 70)], [("Id_3", .int 8), ("Me_7", .null)]]
+example : (join2 .cross [] p1 q2).map (·.rows.length) = .ok 4 := by decide +kernel
+example : (joinBody .full none keepBody [("d1", ds1), ("d2", ds2)]).map (fun d => (d.ids, d.meas, d.rows.length)) =
+    .ok (["Id_1", "Id_2"], ["Me_1", "Me_1A", "Me_2"], 3) := by decide +kernel
+example : (evalD [("DS_1", ds1), ("DS_2", ds2)] (joinE .left none keepBody "d1" (.ds "DS_1") "d2" (.ds "DS_2"))).map
+    (fun d => d.rows.map (fun r => (r.get "Id_1", r.get "Me_2"))) = .ok [(.int 1, .str "Q"), (.int 2, .null)] := by decide +kernel
+example : ExtWF keepBody ∧ ExtPerm keepBody := by constructor <;> simp [keepBody, ExtWF, ExtPerm]
+example : joinBody .inner none (.ds jname) [("d1", ds1), ("d2", ds2)] = .error .type := by decide +kernel   -- Me_2 stays ambiguous
 
 end VtlModel.C04
